@@ -560,8 +560,36 @@ func (ss *Package) messageProperties(parent RootSchema, src protoreflect.Message
 		return nil, fmt.Errorf("oneof %s has not been added", pending.JSONName)
 	}
 
+	if err := checkPropertyNames(properties); err != nil {
+		return nil, err
+	}
+	for idx := 0; idx < src.Oneofs().Len(); idx++ {
+		oneof, ok := exposeOneofs[string(src.Oneofs().Get(idx).Name())]
+		if !ok {
+			continue
+		}
+		if err := checkPropertyNames(oneof.Properties); err != nil {
+			return nil, fmt.Errorf("oneof %s: %w", oneof.name, err)
+		}
+	}
+
 	return properties, nil
 
+}
+
+// checkPropertyNames rejects two properties with the same JSON name. The proto
+// compiler checks the JSON names of fields against each other, but not against
+// the name an exposed oneof is given, and a linked descriptor set is not
+// checked at all.
+func checkPropertyNames(properties []*ObjectProperty) error {
+	seen := make(map[string]struct{}, len(properties))
+	for _, prop := range properties {
+		if _, ok := seen[prop.JSONName]; ok {
+			return fmt.Errorf("property name %q is used twice", prop.JSONName)
+		}
+		seen[prop.JSONName] = struct{}{}
+	}
+	return nil
 }
 
 func commentDescription(src protoreflect.Descriptor) string {
